@@ -75,6 +75,8 @@ const CATALOGUE: &[Plant] = &[
     Plant { name: "zero denominator (range start)", text: "@zq{1/0-2%g}", place: 0, dialect: Some(true), kind: "division-by-zero", error: true, parse: true, focus: "1/0" },
     Plant { name: "zero denominator (range end)", text: "#zpot{1-3/0}", place: 0, dialect: Some(true), kind: "division-by-zero", error: true, parse: true, focus: "3/0" },
     Plant { name: "empty ingredient name (no-break space)", text: "@\u{00A0}{2%kg}", place: 0, dialect: None, kind: "empty-name:ingredient", error: true, parse: true, focus: "{2%kg}" },
+    Plant { name: "empty ingredient name with an alias", text: "@|zq{}", place: 0, dialect: Some(true), kind: "empty-name:ingredient", error: true, parse: true, focus: "@|zq{}" },
+    Plant { name: "blank cookware name with an alias", text: "# |zpan{}", place: 0, dialect: Some(true), kind: "empty-name:cookware", error: true, parse: true, focus: "# |zpan{}" },
     Plant { name: "malformed front matter", text: "---\nza: [\n---\n", place: 2, dialect: None, kind: "other:", error: true, parse: false, focus: "za: [\n" },
 ];
 
